@@ -147,7 +147,7 @@ def cases(tier, seed, shard, nshards):
                     yield {"kind": "reconnect", "tls": False, "reconnectable": True, "reqs": reqs}
                 i += 1
     rng = random.Random(f"{seed}:C19:{shard}")
-    nrand = (720 if tier == "quick" else 40000) // nshards
+    nrand = (720 if tier == "quick" else 32000) // nshards
     for c in range(nrand):
         r = rng.random()
         tls = r < 0.14
